@@ -27,6 +27,7 @@ class FakeSock:
         self.out = b""
         self.blocking = blocking
         self.fatal = False
+        self.eof_reported = False
         if ssl:
             self.getpeercert = lambda: None
 
@@ -49,7 +50,17 @@ class FakeSock:
         k = n if s[0] == "all" else min(s[1], n)
         c = self.stream[self.pos:self.pos + k]
         self.pos += len(c)
+        if n > 0 and not c:
+            self.eof_reported = True        # (a scripted ("data", 0) is an end-of-stream report too: recv returned b"")
         return c
+
+    def recv_into(self, buf, nbytes=0, flags=0):
+        # (socket.recv_into: up to nbytes - or len(buf) when 0 - bytes are written at the START of buf; returns the count)
+        n = nbytes or len(buf)
+        assert n <= len(buf)
+        c = self.recv(n, flags)
+        buf[:len(c)] = c
+        return len(c)
 
     def gettimeout(self):
         return None if self.blocking else 1.0
@@ -83,6 +94,8 @@ def check_recv(stream, size, script, waitall, ssl):
     except PyroTimeout:
         return None
     except ConnectionClosedError as x:
+        if not (sock.eof_reported or sock.fatal):
+            return dict(desc, violated="connection-closed raised although no read reported end of stream and no fatal error occurred (a short read is fragmentation)", cursor=sock.pos)
         if hasattr(x, "partialData"):
             if bytes(x.partialData) != stream[:sock.pos] or len(x.partialData) > size or (size > 0 and len(x.partialData) >= size):
                 return dict(desc, violated="partialData==received-so-far", got=list(bytes(x.partialData)), cursor=sock.pos)
